@@ -341,6 +341,30 @@ theorem transmit_data_bytes (i : Nat) (c : Bytes) :
   unfold counterOf at this
   rw [this]; rfl
 
+/-- ... so every PDU `ECU.transmit_data` puts on the wire is accepted by the codec and fits the block length in force -/
+theorem transmit_data_fits (data : Bytes) (bl : Int) (mbl : Option Int) (cs : List Call)
+    (h : transmitCalls data bl mbl = .ok cs) :
+    ∀ c ∈ cs, ∃ b, bytesOf c = .ok b ∧ 1 ≤ b.length ∧ (b.length : Int) ≤ effBlockLength bl mbl := by
+  obtain ⟨chunks, -, hlen, -, hn, hget, hlast⟩ := transmit_data_counters data bl mbl cs h
+  have h3 : 3 ≤ effBlockLength bl mbl := by
+    by_cases h3 : 3 ≤ effBlockLength bl mbl
+    · exact h3
+    · rw [(transmit_data_refuses data bl mbl).1 (by omega)] at h; cases h
+  intro c hc
+  obtain ⟨i, hi, rfl⟩ := List.getElem_of_mem hc
+  by_cases hic : i < chunks.length
+  · have := hget i hic
+    rw [List.getElem?_eq_getElem hi, Option.some.injEq] at this
+    rw [this]
+    refine ⟨_, (transmit_data_bytes i chunks[i]).1, by simp, ?_⟩
+    have := (hlen chunks[i] (List.getElem_mem hic)).2
+    simp only [List.length_cons]; omega
+  · have hie : i = chunks.length := by omega
+    subst hie
+    rw [List.getElem?_eq_getElem hi, Option.some.injEq] at hlast
+    rw [hlast]
+    exact ⟨_, (transmit_data_bytes 0 []).2, by simp, by simp; omega⟩
+
 /-! ### the hypotheses are satisfiable by concrete, non-trivial values -/
 
 example : (Req.defineByMem 0xF300 0x24 [(0x11223344, 0x0102)] true).WF := by decide
